@@ -7,7 +7,10 @@ From UV Require Model.WrClose.
 Inductive case :=
 | COutcome (complete hs_err closed reneg : bool) (callers : list (result * bool))
 (* Close during a Write: was the peer stalled, did Write return nil, did both return *)
-| CWrClose (stalled write_ok both_returned : bool).
+| CWrClose (stalled write_ok both_returned : bool)
+(* a single HandshakeContext caller, nobody else closes: its result, whether the transport was closed at return (i.e. by
+   its interrupter), whether its ctx had been cancelled, whether the handshake is complete *)
+| CInterrupt (r : result) (closed cancelled complete : bool).
 
 Definition check (c : case) : bool :=
   match c with
@@ -15,4 +18,7 @@ Definition check (c : case) : bool :=
       negb (co && he) && forallb (fun x => outcome_ok (fst x) co he cl (snd x) rn) callers
   (* C26_interlock: both calls return, and a Write that returned nil had its record written (impossible on a stalled peer) *)
   | CWrClose stalled write_ok both => both && negb (stalled && write_ok)
+  (* C26_interrupted_iff_ctx_error: interrupter fired <-> ctx error; plus C26_hs_outcome *)
+  | CInterrupt r cl ca co =>
+      eqb cl (match r with RCtx => true | _ => false end) && outcome_ok r co (negb co) cl ca false
   end.
